@@ -12,8 +12,8 @@ import common
 import datagen
 import datatie
 
-EXTRA_TARGETS = ["Model/DataQ.vo"]
-GEN_PREFIXES = []
+EXTRA_TARGETS = ["Model/DataQ.vo", "Gen/Gen_io.vo"]
+GEN_PREFIXES = ["verif/input.py:Text._clean"]
 ASSUMPTIONS = [">1e30 is an encoding of the NetCDF reader only (util.clean); in text files such a token is a number",
                "literal inf tokens are outside the model"]
 METRICS = ["mae", "bias", "rmse", "stderror", "corr", "rankcorr", "nsec", "kge", "cmae", "dmb", "mbias", "ef", "derror",
@@ -31,6 +31,7 @@ def _explore(out, tier, seed, facts, replay):
     import verif.input
     import verif.util
     import verif.axis
+    import verif.aggregator
     datagen.patch_error()
     n = 100 if tier == "quick" else 1200
     stats, cases = datatie.run_tie(out, seed, n, 8, "c04", options=True)
@@ -94,15 +95,38 @@ def _explore(out, tier, seed, facts, replay):
                 out.violation("metric-exception:%s" % name, "metric %s raised %r" % (name, e), {"dataset": ds, "metric": name, "axis": ax.name()})
                 continue
             nf += 1
+            empties = set()
             for ai, v in enumerate(np.asarray(vals, float).flatten()):
                 fs = {"pit": ["pit"], "obs": ["obs"], "fcst": ["fcst"]}.get(name, ["obs", "fcst"])
                 r = datagen.impl_request(ds, (fs, 0, datagen.AXES.index(ax.name().lower()), ai))
                 if isinstance(r, tuple):
                     continue
                 empty = len(r[0]) == 1 and math.isnan(r[0][0])
+                if empty:
+                    empties.add(ai)
                 if empty and not (math.isnan(v)):
                     out.violation("empty-slice-numeric:%s" % name, "metric %s gives %r on a slice without valid cases" % (name, v),
                                   {"dataset": ds, "metric": name, "axis": ax.name(), "slice": ai})
+            # the SAME dataset object asked again (its answers now come from the cache), with other aggregators:
+            # an empty slice is still NaN for every aggregator, and never an exception
+            if getattr(m, "supports_aggregator", False):
+                for aggname in rng.sample(["sum", "max", "min", "range", "iqr", "median", "0.3", "std", "count", "mean"], 3):
+                    m2 = verif.metric.get(name)
+                    m2.aggregator = verif.aggregator.get(aggname)
+                    try:
+                        vals2 = m2.compute(d, 0, ax, iv)
+                    except datagen.ImplExit:
+                        continue
+                    except Exception as e:
+                        out.violation("metric-exception-repeat:%s" % name, "metric %s -agg %s raised %r on a dataset that had already answered the same request once "
+                                      "(slices without valid cases: %s)" % (name, aggname, e, sorted(empties)),
+                                      {"dataset": ds, "metric": name, "axis": ax.name(), "aggregator": aggname, "note": "compute the metric once with the default aggregator first, then again with this one, on the same Data object"})
+                        continue
+                    nf += 1
+                    for ai, v in enumerate(np.asarray(vals2, float).flatten()):
+                        if ai in empties and not math.isnan(v) and aggname != "count":
+                            out.violation("empty-slice-numeric-repeat:%s" % name, "metric %s -agg %s gives %r on a slice without valid cases when the dataset is asked a second time" % (name, aggname, v),
+                                          {"dataset": ds, "metric": name, "axis": ax.name(), "slice": ai, "aggregator": aggname})
         if len(samples) < 2:
             samples.append({"n_inputs": ninp, "marked_input": j})
     # (2b) missing ensemble members never count as a number in probabilities derived from the ensemble
@@ -129,7 +153,7 @@ def _explore(out, tier, seed, facts, replay):
     # (3) encodings: text tokens and NetCDF cells
     tmp = tempfile.mkdtemp(prefix="vfc04_")
     try:
-        for tok in ["-999", "NA", "nan", "NaN", "missing", "-999.0", ""]:
+        for tok in ["-999", "NA", "nan", "NaN", "missing", "-999.0", "-9.99e2", "-999.", ""]:
             if tok == "":
                 continue
             fn = os.path.join(tmp, "t.txt")
@@ -139,6 +163,38 @@ def _explore(out, tier, seed, facts, replay):
             o, f = inp.obs, inp.fcst
             if not (np.isnan(o[0, 0, 0]) and np.isnan(f[0, 0, 1]) and o[0, 0, 1] == 3):
                 out.violation("text-encoding:%s" % tok, "text token %r not read as missing: obs=%r fcst=%r" % (tok, o.tolist(), f.tolist()), {"token": tok})
+        # Tie A for the token rule: Gen_io.text_cell (generated from Text._clean) on what Python's float() makes of the
+        # token, against Text._clean itself; spellings of the number -999, non-numbers, ordinary numbers
+        toks = ["-999", "-999.0", "-999.00", "-999.", "-9.99e2", "-999e0", "-0999", " -999", "-999 ", "NA", "na", "nan", "NaN", "missing", "x", "-", "1e3",
+                "-998.999", "-999.001", "999", "0", "-0.0", "1e31", "3.25", "-12.5", "1_0", "--999"] + ["%g" % (rng.randint(-2000, 2000) / 2.0) for _ in range(20)]
+        texprs, tgot = [], []
+        for tok in toks:
+            try:
+                pv = float(tok)
+                texprs.append("[text_cell XF (Some %s)]" % common.fl(pv))
+            except ValueError:
+                texprs.append("[text_cell XF None]")
+            try:
+                tgot.append(float(verif.input.Text._clean(None, tok)))
+            except Exception as e:
+                tgot.append("exception %s" % type(e).__name__)
+        try:
+            tmod = common.coq_eval_float_lists("From VF Require Import Base.Num Gen.Gen_io.", texprs, "c04tok_%d" % seed, chunk=100)
+            tbad = [(tok, m[0], g) for tok, m, g in zip(toks, tmod, tgot) if isinstance(g, str) or not ((math.isnan(m[0]) and math.isnan(g)) or m[0] == g)]
+            nf += len(toks)
+            if tbad:
+                out.broken_obligation("tie:Gen_io.text_cell", "%d of %d tokens: the translated token rule and Text._clean disagree; first (token, model, implementation) %r" % (len(tbad), len(toks), tbad[0]))
+        except RuntimeError as ex:
+            out.broken_obligation("tie:Gen_io.text_cell", str(ex)[-1200:])
+        for tok, g in zip(toks, tgot):
+            try:
+                pv = float(tok)
+            except ValueError:
+                pv = None
+            want_missing = pv is None or math.isnan(pv) or pv == -999
+            if isinstance(g, str) or (want_missing and not math.isnan(g)) or (not want_missing and g != pv):
+                out.violation("text-token:%s" % tok.strip(), "the text reader turns the token %r into %r; %s" % (tok, g, "a token that is no number, NaN or the number -999 is missing" if want_missing else "the number %r must be kept" % pv),
+                              {"token": tok})
         import netCDF4
         fn = os.path.join(tmp, "t.nc")
         nc = netCDF4.Dataset(fn, "w")
